@@ -428,13 +428,83 @@ def r_c12_first_line_longer_than_block(s4, repo, scratch):
         rc, out, err = run_s4(s4, ['--color', 'never', '--blocksz', b, inp])
         if out != body:
             bad = bad or (b, len(out))
+    # this input is the one of known finding D6: it is evidence only for the obligation that finding names
     return {'name': 'C12.first_line_longer_than_block', 'input': inp, 'how_made': 'two messages, the first line 118 bytes long',
+            'only_for_obligation': "r.0 ==> r.2 as int == bptr_middle@.len() - 1",
             'cmd': '%s --color never --blocksz 64|72|100|128|4096 %s' % (s4, inp), 'expected': 'the %d bytes of the file at every block size' % len(body),
             'observed': 'identical at every block size' if not bad else '--blocksz %s prints %d bytes' % bad, 'failed': bool(bad)}
 
 
+def _xxh32(data, seed=0):
+    P1, P2, P3, P4, P5 = 2654435761, 2246822519, 3266489917, 668265263, 374761393
+    M = 0xFFFFFFFF
+    rotl = lambda x, r: ((x << r) | (x >> (32 - r))) & M
+    n = len(data); i = 0
+    if n >= 16:
+        v = [(seed + P1 + P2) & M, (seed + P2) & M, seed & M, (seed - P1) & M]
+        while i <= n - 16:
+            for k in range(4):
+                w = int.from_bytes(data[i:i + 4], 'little'); i += 4
+                v[k] = (rotl((v[k] + w * P2) & M, 13) * P1) & M
+        h = (rotl(v[0], 1) + rotl(v[1], 7) + rotl(v[2], 12) + rotl(v[3], 18)) & M
+    else:
+        h = (seed + P5) & M
+    h = (h + n) & M
+    while i <= n - 4:
+        h = (rotl((h + int.from_bytes(data[i:i + 4], 'little') * P3) & M, 17) * P4) & M; i += 4
+    while i < n:
+        h = (rotl((h + data[i] * P5) & M, 11) * P1) & M; i += 1
+    h ^= h >> 15; h = (h * P2) & M; h ^= h >> 13; h = (h * P3) & M; h ^= h >> 16
+    return h
+
+
+def _lz4_frame_stored(data, block=65536):
+    """an LZ4 frame whose blocks are stored uncompressed (valid LZ4; needs no compressor): 64 KiB blocks, independent, no checksums"""
+    desc = bytes([0x60, 0x40])
+    out = bytearray(b'\x04\x22\x4d\x18' + desc + bytes([(_xxh32(desc) >> 8) & 0xFF]))
+    for i in range(0, len(data), block):
+        chunk = data[i:i + block]
+        out += (len(chunk) | 0x80000000).to_bytes(4, 'little') + chunk
+    out += (0).to_bytes(4, 'little')
+    return bytes(out)
+
+
+def r_c12_lz4_block_boundaries(s4, repo, scratch):
+    """an LZ4 file whose 64 KiB LZ4 blocks do not line up with the read block size prints the same as the plain file"""
+    lines = ['2024-01-01T00:%02d:%02d.%03d+00:00 host app[1]: message number %06d %s\n' % ((i // 60) % 60, i % 60, i % 1000, i, 'x' * (i % 37)) for i in range(2500)]
+    body = ''.join(lines).encode()
+    inp = os.path.join(scratch, 'c12_blocks.log.lz4')
+    open(inp, 'wb').write(_lz4_frame_stored(body))
+    bad = None
+    for b in ('0x10000', '1000', '33333', '0x40000'):
+        rc, out, err = run_s4(s4, ['--color', 'never', '--blocksz', b, inp])
+        if out != body:
+            first = next((k for k in range(min(len(out), len(body))) if out[k] != body[k]), min(len(out), len(body)))
+            bad = bad or (b, len(out), first, out.count(b'\0'))
+    return {'name': 'C12.lz4_block_boundaries', 'input': inp, 'how_made': '2500 timestamped lines (%d bytes) as an LZ4 frame of stored 64 KiB blocks' % len(body),
+            'cmd': '%s --color never --blocksz 0x10000|1000|33333|0x40000 %s' % (s4, inp), 'expected': 'the %d bytes of the data at every block size' % len(body),
+            'observed': 'identical at every block size' if not bad else '--blocksz %s prints %d bytes, first difference at byte %d, %d NUL bytes' % bad, 'failed': bool(bad)}
+
+
+def r_c12_gz_short_reads(s4, repo, scratch):
+    """a gzip file larger than the decoder's 32 KiB window prints the same at every block size"""
+    import gzip
+    lines = ['2024-01-01T00:%02d:%02d.%03d+00:00 host app[1]: message number %06d %s\n' % ((i // 60) % 60, i % 60, i % 1000, i, 'y' * (i % 41)) for i in range(2500)]
+    body = ''.join(lines).encode()
+    inp = os.path.join(scratch, 'c12_short_reads.log.gz')
+    open(inp, 'wb').write(gzip.compress(body, mtime=0))
+    bad = None
+    for b in ('0x10000', '256', '1000', '33333', '0x40000'):
+        rc, out, err = run_s4(s4, ['--color', 'never', '--blocksz', b, inp])
+        if out != body:
+            bad = bad or (b, len(out))
+    return {'name': 'C12.gz_short_reads', 'input': inp, 'how_made': '2500 timestamped lines (%d bytes), gzip' % len(body),
+            'cmd': '%s --color never --blocksz 0x10000|256|1000|33333|0x40000 %s' % (s4, inp), 'expected': 'the %d bytes of the data at every block size' % len(body),
+            'observed': 'identical at every block size' if not bad else '--blocksz %s prints %d bytes' % bad, 'failed': bool(bad)}
+
+
 RECIPES = {
-    'C12': [r_c12_first_line_longer_than_block],
+    'C12': [r_c12_first_line_longer_than_block, r_c12_lz4_block_boundaries, r_c12_gz_short_reads],
     'C19': [r_c19_summary_bytes_match_stdout],
     'C02': [r_c02_continuation_at_block_boundary, r_c02_mixed_notation_first_message],
     'C04': [r_c04_instants, r_c04_fractions, r_c04_month_abbreviation_with_dot],
@@ -473,7 +543,12 @@ def find_failing_input(prop, P, violations, repo, scratch):
             except OSError:
                 pass
         results.append(res)
-    failing = [r for r in results if r.get('failed')]
+    # a recipe bound to one obligation (the input of a recorded finding) is a failing input only for a violation of that obligation
+    obl_texts = [str(v.get('obligation', '')) + ' ' + ' '.join(str(s_.get('text', '')) for s_ in v.get('spans', [])) for v in (violations or [])]
+    def applies(r):
+        need = r.get('only_for_obligation')
+        return (not need) or any(need in t for t in obl_texts)
+    failing = [r for r in results if r.get('failed') and applies(r)]
     return {'failing_input_found': bool(failing), 'failing': failing, 'all_recipes': results, 'log': log}
 
 
